@@ -332,6 +332,11 @@ OBJS = {k[2:]: v for k, v in list(globals().items()) if k.startswith("o_")}
 # ------------------------------------------------------------------------------------------
 # grids (construction of rockit's grid objects from the JSON-able name)
 
+def user_grid_function(N):
+    """the user's normalised node locations (module level so that an Ocp using it can be pickled)"""
+    return [(k / N) ** 2 * 0.6 + 0.4 * k / N for k in range(N + 1)]
+
+
 def make_grid(name):
     import rockit
     from rockit.sampling_method import UniformGrid, GeometricGrid, FreeGrid, FunctionGrid, DensityGrid, DenseEdgesGrid
@@ -351,7 +356,7 @@ def make_grid(name):
     if kind == "free":
         return FreeGrid(**kw)
     if kind == "function":
-        return FunctionGrid(lambda N: [(k / N) ** 2 * 0.6 + 0.4 * k / N for k in range(N + 1)], **kw)
+        return FunctionGrid(user_grid_function, **kw)
     if kind == "density":
         tau = ca.MX.sym("tau")
         dens = {"lin": 1 + tau, "sq": 0.2 + tau * tau}[opts.get("dens", "lin")]
